@@ -13,7 +13,7 @@ CHUNK = 200
 
 class Flt:
     def __init__(self, prop, kind, helpers, workloads, followups, is_expected_ball, points,
-                 arm_opts=None, fault_name="fault", accept_completed=False):
+                 arm_opts=None, fault_name="fault", accept_completed=False, fine_grained=()):
         self.prop = prop
         self.kind = kind
         self.helpers = helpers
@@ -24,6 +24,7 @@ class Flt:
         self.arm_opts = arm_opts or {}
         self.fault_name = fault_name
         self.accept_completed = accept_completed
+        self.fine_grained = set(fine_grained)
 
     # -- plumbing ---------------------------------------------------------
     def setup(self, w, tier):
@@ -130,6 +131,10 @@ class Flt:
             acc.case(ph == "interior", "%s/%s" % (ph, label),
                      sample={"workload": name, "n": n, "of": N, "phase": ph, "result": label})
             if vk:
+                if name in self.fine_grained:
+                    # workloads whose known defects sit in a few-instruction window: the
+                    # signature carries the offset from the workload's first instruction
+                    vk = "%s @+%d" % (vk, n - (w0 or 0))
                 acc.violation("%s %s: %s" % (name, ph, vk), {"workload": name, "n": n},
                               expected="the documented error, clean follow-ups", observed=obs)
                 w.new_machine()
@@ -143,6 +148,8 @@ class Flt:
         N, w0, w1, _ = self.count(w, i)
         ref = self.reference(w, i)
         label, vk, obs = self.one_run(w, i, case["n"], ref)
+        if vk and case["workload"] in self.fine_grained:
+            vk = "%s @+%d" % (vk, case["n"] - (w0 or 0))
         if vk:
             return {"sig": "%s %s: %s" % (case["workload"], phase(case["n"], w0, w1), vk), "case": case, "observed": obs}
         return None
